@@ -551,6 +551,53 @@ func runR092(c *core.Ctx) {
 			continue
 		}
 		sinf := sortFrame.Info
+		// the entry's key field: the field that the key-writer literal (the function literal handed to the MapWriter
+		// callback) initialises or assigns from its key parameter
+		keyField := ""
+		v.Inspect(func(fr *core.VFrame, n ast.Node) bool {
+			call, ok := n.(*ast.CallExpr)
+			if !ok || len(call.Args) != 1 || cbParam == nil || v.ObjOf(fr.Info, call.Fun) != cbParam {
+				return true
+			}
+			lit, ok := core.Unparen(call.Args[0]).(*ast.FuncLit)
+			if !ok || len(lit.Type.Params.List) == 0 || len(lit.Type.Params.List[0].Names) == 0 {
+				return true
+			}
+			keyParam := fr.Info.Defs[lit.Type.Params.List[0].Names[0]]
+			ast.Inspect(lit.Body, func(m ast.Node) bool {
+				switch x := m.(type) {
+				case *ast.CompositeLit:
+					st, isStruct := fr.Info.Types[x].Type.Underlying().(*types.Struct)
+					if !isStruct {
+						return true
+					}
+					for i, el := range x.Elts {
+						if kv, isKV := el.(*ast.KeyValueExpr); isKV {
+							if core.ObjOf(fr.Info, kv.Value) == keyParam {
+								if id, ok := kv.Key.(*ast.Ident); ok && keyField == "" {
+									keyField = id.Name
+								}
+							}
+						} else if core.ObjOf(fr.Info, el) == keyParam && i < st.NumFields() && keyField == "" {
+							keyField = st.Field(i).Name()
+						}
+					}
+				case *ast.AssignStmt:
+					for i, l := range x.Lhs {
+						if sel, ok := core.Unparen(l).(*ast.SelectorExpr); ok && len(x.Lhs) == len(x.Rhs) && core.ObjOf(fr.Info, x.Rhs[i]) == keyParam && keyField == "" {
+							keyField = sel.Sel.Name
+						}
+					}
+				}
+				return true
+			})
+			return true
+		})
+		if keyField == "" {
+			c.Bad(rel, spec.fn, "comparator is ascending on the entry key", sortCall.Pos(), "the buffered entries do not record the key handed to the key writer: nothing to sort by")
+			continue
+		}
+		spec.keyField = keyField
 		// comparator shape
 		okLess, why := false, "the less function is not `entries[i]."+spec.keyField+" < entries[j]."+spec.keyField+"`"
 		if len(sortCall.Args) == 2 {
